@@ -429,6 +429,11 @@ func stats(c *hx.Ctx, d *ldoc) {
 		}
 		if bl.P.Kind == "h" {
 			c.Count(d.Format + "-heading-via-" + bl.P.Via)
+			if bl.P.NoOwnLevel {
+				c.Count(fmt.Sprintf("odt-heading-without-a-level-of-its-own:outline-level=%s:via-%s", bl.P.RawOutline, bl.P.Via))
+			} else if bl.P.RawOutline != "" {
+				c.Count("odt-heading-outline-level-respelled")
+			}
 			if bl.P.StyleLevel != 0 {
 				who := "a-style-above-it"
 				if bl.P.StyleOwn {
@@ -454,6 +459,9 @@ func stats(c *hx.Ctx, d *ldoc) {
 			}
 			if p.Via == "undef" || p.Via == "normal" {
 				c.Count(d.Format + "-plain-paragraph-in-style-" + p.Via)
+			}
+			if p.HStyle != "" {
+				c.Count("odt-plain-paragraph-in-heading-style:via-" + p.HStyle)
 			}
 			if p.Jc != "" {
 				c.Count("docx-paragraph-with-direct-jc/spacing/ind")
@@ -723,7 +731,27 @@ func witnessDocs() []*ldoc {
 		// style carries
 		relevelWitness(),
 		relevelOwnWitness(),
+		// ODT: headings that state no level themselves, paragraphs written in heading styles
+		unlevelWitness(),
 	}
+}
+
+// unlevelWitness: <text:h> without text:outline-level (and with one that is no level) in
+// the built-in heading style of level 3, in an automatic style derived from Heading 2, in a
+// custom heading style and in no style at all; <text:p> written in Heading 2 and in the
+// automatic style derived from it; a heading whose level is spelled "03".
+func unlevelWitness() *ldoc {
+	return &ldoc{Format: "odt", Styles: true, NoDraw: true, Blocks: []lblock{
+		{P: &lpara{Kind: "h", Level: 3, Via: "builtin", NoOwnLevel: true, RawOutline: "omit", Runs: tx("W001x")}},
+		{P: &lpara{Kind: "p", Level: 2, HStyle: "builtin", Runs: tx("W002x")}},
+		{P: &lpara{Kind: "h", Level: 2, Via: "inherited", NoOwnLevel: true, RawOutline: "omit", Runs: tx("W003x")}},
+		{P: &lpara{Kind: "p", Level: 2, HStyle: "inherited", Runs: tx("W004x")}},
+		{P: &lpara{Kind: "h", Level: 4, Via: "custom", NoOwnLevel: true, RawOutline: "0", Runs: tx("W005x")}},
+		{P: &lpara{Kind: "h", Level: 5, Via: "outline", NoOwnLevel: true, RawOutline: "11", Runs: tx("W006x")}},
+		{P: &lpara{Kind: "h", Level: 3, Via: "builtin", RawOutline: "03", Runs: tx("W007x")}},
+		{P: &lpara{Kind: "p", Level: 6, HStyle: "inherited2", Runs: tx("W008x")}},
+		{P: &lpara{Kind: "h", Level: 7, Via: "inherited2", NoOwnLevel: true, RawOutline: "", Runs: tx("W009x")}},
+	}}
 }
 
 // relevelWitness: what an editor writes after the level of a heading was changed on the
@@ -903,7 +931,8 @@ func Run(c *hx.Ctx) {
 		"(even index = DOCX, odd = ODT); ODT tables group their rows / columns in table-header-rows, table-rows, table-row-group, table-columns, table-header-columns, table-column-group in two of five cases; " +
 		"for every document ONE more reader whose views (TextWithOptions, MarkdownWithOptions, MarkdownWithRAGOptions, Document, ModelTables, parsed elements) are asked for in a drawn order with repetitions and drawn options (exclusion switches, heading offset -3..4, heading cap 0/1/3/6/9/-1), every answer compared in full with the Lean model of the writers; the views through tabula.Open(f) with drawn Exclude switches; a drawn history of 3..12 Resolve calls (ids the document uses and ids it does not define, repeated, the empty id) on one style resolver; the row spans of every DOCX body table against the state-free specification of the vertical-merge pass; " +
 		"plus a render stream: regular documents into which body paragraphs are planted that ARE header/footer lines (bare, padded with spaces / tabs / no-break spaces / line breaks, near misses; as paragraph, heading, list item, table cell), cell text with pipes and Unicode spaces, a first / last paragraph that begins / ends with line breaks, paragraphs and list items without text, DOCX headings that also carry numbering properties, numbering parts and ODT list styles drawn at random (every number format incl. unknown ones, level texts plain / pattern / Private-Use / control character / empty, start values 0 / negative / huge / not a number, levels missing or defined twice, ids that point nowhere), ODT lists without a style name or with an undefined one - these are checked by the correspondence of all views, the panic check and the leak count (a header/footer line occurs in Text() / Markdown() exactly as often as the body holds it, exclusion never adds text); " +
-		"ODT headings whose text:outline-level is NOT the level their paragraph style's definition chain says (a heading moved to another level keeps its style): through an automatic style derived from Heading N / a custom heading style of another level, through a family style that inherits its level (the style named carries no outline level of its own: key odt-outline-level-vs-inherited-style-level), and naming the built-in / custom / localized / family heading style of another level itself (key odt-outline-level-vs-own-style-level, known finding) - the heading's level is what text:outline-level says; " +
+		"ODT headings whose text:outline-level is NOT the level their paragraph style's definition chain says (a heading moved to another level keeps its style): through an automatic style derived from Heading N / a custom heading style of another level, through a family style that inherits its level (the style named carries no outline level of its own: key odt-outline-level-vs-inherited-style-level), and naming the built-in / custom / localized / family heading style of another level itself (key odt-outline-level-vs-own-style-level; repaired d316e04) - the heading's level is what text:outline-level says; " +
+		"ODT headings that state NO level themselves (text:outline-level left out, empty, 0, 11, -2, 2.5, a word) in every kind of paragraph style - built-in / custom / localized heading style, automatic style derived from one, family style with an own or an inherited level, cyclic styles, a body style or no style (key odt-heading-without-outline-level: a heading, in place, at level 1 or at the level of its paragraph style) - and headings whose level is respelled (03); ODT plain paragraphs <text:p> written in a heading style or in a style derived from one (built-in, custom, localized, automatic PHn / PKn, family styles: key odt-paragraph-in-heading-style - a paragraph, not a heading); " +
 		"every generated and render-stream package in a drawn MARKUP FLAVOUR (flavour.go; about half keep the writers' spelling): DOCX in the ISO/IEC 29500 Strict namespaces (main, relationships, every relationship Type, w:conformance=strict), the relationships namespace under another prefix or declared on each referencing element instead of the root, the main namespace under another prefix or as default namespace (each WordprocessingML part on its own), and combinations; ODT with text/office/style/table/fo under other prefixes, the text / style namespace as default namespace, table/xlink/svg declared on the elements that use them - same logical document, same authored trees, same expectations; HeaderTexts()/FooterTexts() of the reader hold the lines of the header / footer parts (key header-requested); " +
 		"plus fixed witnesses of the quoted defects and a stream of damaged packages; " +
 		"plus documents AT THE RESOURCE BOUNDS of the readers, written element by element (bounds.go; distribution buckets bound:…): inline containers (w:ins/w:sdt/w:sdtContent/w:hyperlink/w:smartTag/w:fldSimple/w:moveTo, text:span/text:a) nested 9999, 10000, 10001, 10002 and 40000 deep with text at several depths - in a body paragraph, a heading, a list-item paragraph, a table-cell paragraph, a header part, a nested table (not decoded), as the first body paragraph, inside a text:section, inside a skipped text:note (not decoded), with block elements behind the refused tag; " +
